@@ -104,7 +104,7 @@ theorem concat_pure (vs : List (Option Val)) (r : Val) (hs : concatS vs = .ok r)
       exact concat_strings ss
 
 /-- `$arrayElemAt`: a null or missing operand gives null -/
-theorem elemAt_pure (a i : Option Val) (hb : isBoolO i = false) (r : Option Val)
+theorem elemAt_pure (a i : Option Val) (r : Option Val)
     (hs : elemAt a i = .ok r) : arrayElemAtOp (a.getD .null) (i.getD .null) = .ok r := by
   unfold elemAt at hs
   by_cases hn : (nullish a || nullish i) = true
@@ -128,7 +128,7 @@ theorem elemAt_pure (a i : Option Val) (hb : isBoolO i = false) (r : Option Val)
           cases y with
           | int n =>
             simp only at hs
-            simp only [intLike, pyIndex]
+            simp only [isBoolV, Bool.false_eq_true, if_false, intLike, pyIndex]
             split at hs
             · rename_i h; simpa [h] using hs
             · rename_i h
@@ -136,7 +136,6 @@ theorem elemAt_pure (a i : Option Val) (hb : isBoolO i = false) (r : Option Val)
               · rename_i h'; simpa [h, h'] using hs
               · rename_i h'; simpa [h, h'] using hs
           | dbl m e => simp [unmodelled] at hs
-          | bool b => simp [isBoolO] at hb
           | _ => simp at hs
         | _ => simp at hs
 
@@ -225,13 +224,24 @@ theorem toString_pure (a : Option Val) (r : Val) (hs : toStringS a = .ok r) :
 
 /-! ### how `eval` runs the handlers -/
 
-/-- a handler that parses its whole argument -/
+/-- an operator that takes one argument never has a handler that takes its argument apart -/
+theorem unary_not_shaped (k : String) (v : Val) (h : unaryListOps.contains k = true) :
+    mode k v ≠ .shaped := by
+  simp only [unaryListOps, unaryArithOps, datePartOps, List.cons_append, List.nil_append,
+    List.contains_cons, List.contains_nil, Bool.or_false, Bool.or_eq_true, beq_iff_eq] at h
+  rcases h with rfl | rfl | rfl | rfl | rfl | rfl | rfl | rfl | rfl | rfl | rfl | rfl | rfl | rfl
+    | rfl | rfl | rfl | rfl | rfl | rfl | rfl | rfl | rfl | rfl | rfl | rfl | rfl | rfl | rfl <;>
+  simp [mode, dateOps, datePartOps, wholeOps, unaryArithOps, groupingOps] <;>
+  (try split) <;> simp
+
+/-- a handler that parses its whole argument (the argument is not a list, the operator not a
+    variadic one) -/
 theorem eval_whole (c : Ctx) (k : String) (v : Val) (cls : OpClass) (hc : classify k = cls)
-    (h1 : cls ≠ .plain) (h2 : cls ≠ .unknown) (h3 : cls ≠ .notImpl) (hm : mode k v = .whole) :
+    (h1 : cls ≠ .plain) (h2 : cls ≠ .unknown) (h3 : cls ≠ .notImpl) (hm : mode k v = .whole)
+    (ha : v.isArr = false) (hv : variadicOps.contains k = false) :
     eval c (.doc [(k, v)]) = (eval c v).bind (applyWhole c.ign k) := by
-  simp only [eval, List.length_singleton, Nat.lt_irrefl, decide_false, Bool.false_and,
-    Bool.false_eq_true, if_false, evalDoc, hc]
-  cases cls <;> simp at h1 h2 h3 <;> simp [hm, bind, Except.bind]
+  subst hc
+  exact eval_whole' c k v h1 h2 h3 (Or.inr ha) (Or.inl hv) hm
 
 /-- a handler that takes a list of operands, all parsed before it looks at any -/
 theorem eval_list (c : Ctx) (k : String) (xs : List Val) (cls : OpClass) (hc : classify k = cls)
@@ -243,10 +253,14 @@ theorem eval_list (c : Ctx) (k : String) (xs : List Val) (cls : OpClass) (hc : c
         match r with
         | none => if k = "$split" then .ok (some .null) else .ok none
         | some vals => applyList k vals) := by
-  simp only [eval, List.length_singleton, Nat.lt_irrefl, decide_false, Bool.false_and,
-    Bool.false_eq_true, if_false, evalDoc, hc]
+  subst hc
+  have hu : unaryListOps.contains k = false := by
+    cases hu : unaryListOps.contains k with
+    | false => rfl
+    | true => exact absurd hm (unary_not_shaped k _ hu)
+  rw [eval_shaped c k _ h1 h2 h3 hu (Or.inr rfl) hm]
   have hl' : k ∈ listOps := by simpa using hl
-  cases cls <;> simp at h1 h2 h3 <;>
-    simp [hm, evalOp, har, hl', bind, Except.bind, pure, Except.pure] <;> rfl
+  simp [evalOp, har, hl', bind, Except.bind, pure, Except.pure]
+  rfl
 
 end MongoModel.Proofs.C04
